@@ -544,7 +544,7 @@ def verify_contract(modname, key, tier="quick", shard=0, nshards=1):
 
 def _lemma_ctx(sm, lem):
     ctx = Ctx(type("C", (), dict(key="lemma:" + lem["name"], ns=sm.ns, locals={}, loops={}, calls={}, raises={},
-                                 globals={}, file="", comp_types={}, result_type=None))(), sm.ns)
+                                 globals={}, file="", comp_types=dict(lem.get("comp_types") or {}), result_type=None))(), sm.ns)
     ctx.spec_mode = True
     return ctx, SpecEval(ctx, sm.ns)
 
@@ -590,7 +590,7 @@ def prove_lemmas(modname):
             continue
         try:
             ctx = Ctx(type("C", (), dict(key="lemma:" + lem["name"], ns=sm.ns, locals={}, loops={}, calls={}, raises={},
-                                         globals={}, file="", comp_types={}, result_type=None))(), sm.ns)
+                                         globals={}, file="", comp_types=dict(lem.get("comp_types") or {}), result_type=None))(), sm.ns)
             ctx.spec_mode = True
             ev = SpecEval(ctx, sm.ns)
             vars_ = {n: fresh(t, n) for n, t in lem["vars"].items()}
